@@ -138,11 +138,16 @@ func c08(e *Env) {
 		f.scriptFn = func(tok string, v primitive.ProtocolVersion) []world.OutcomeSpec {
 			outs := []world.Outcome{world.OK}
 			for i := 0; i < 1+c.Choose("reprep", 3); i++ {
-				switch c.Choose("reprepout", 4) {
+				switch c.Choose("reprepout", 6) {
 				case 0:
 					outs = append(outs, world.OK)
 				case 1:
 					outs = append(outs, world.ErrOutcome("overloaded", &message.Overloaded{ErrorMessage: "re-prepare refused"}))
+				case 4:
+					// (a node whose schema lags)
+					outs = append(outs, world.ErrOutcome("invalid", &message.Invalid{ErrorMessage: "re-prepare refused: unconfigured table"}))
+				case 5:
+					outs = append(outs, world.ErrOutcome("server", &message.ServerError{ErrorMessage: "re-prepare refused"}))
 				case 2:
 					outs = append(outs, world.Outcome{Kind: world.OutDropNow, Name: "drop_now"})
 				case 3:
@@ -298,6 +303,20 @@ func c08(e *Env) {
 					return
 				}
 				e.Res.Stats["oracle.c08.successes_checked"]++
+			}
+		}
+	}
+	// a failed re-preparation moves the request to another host (or ends in the proxy's own error
+	// when no host is left): the error of a PREPARE the client never sent is not its answer
+	for _, cl := range f.clients {
+		for _, r := range cl.Reqs {
+			ri := f.info[r]
+			if ri == nil || (ri.kind != "execute" && ri.kind != "batch") {
+				continue
+			}
+			if em, isErr := replyMsg(r).(message.Error); isErr && strings.Contains(em.GetErrorMessage(), "re-prepare refused") {
+				w.Violate("c08-failover", "re-prepare-error-reached-client("+ri.kind+")", fmt.Sprintf("%s was answered with %v, the error a node gave to the proxy's own re-PREPARE, instead of moving on to the next host; attempts %s", r, em, traceOf(w, r.Token)))
+				return
 			}
 		}
 	}
